@@ -525,17 +525,22 @@ class UrlDiff:
         if ("qs", q) in self.seen:
             return
         self.seen.add(("qs", q))
-        d = UP.parse_qs(q)
-        ok = is_ascii(q) and all(is_ascii(k) and all(is_ascii(v) for v in vs) for k, vs in UP.parse_qs(q, keep_blank_values=True).items())
-        if not ok:
-            self.ctx.unmodelled += 1
-            self.qs.append(("(%s, Unmodelled)" % coq_str(q), {"parse_qs": q}))
-            return
-        self.qs.append(("(%s, (Ok %s))" % (coq_str(q), coq_qd(d)), {"parse_qs": q, "out": d}))
         for kb in (False, True):
             l = UP.parse_qsl(q, keep_blank_values=kb)
-            self.qsl.append(("(%s, %s, (Ok %s))" % (coq_bool(kb), coq_str(q), coq_list(
-                ["(%s, %s)" % (coq_str(k), coq_str(v)) for k, v in l], "(pystr * pystr)")), {"parse_qsl": q, "keep_blank": kb, "out": l}))
+            # the model decodes exactly the fields that are kept; a decoded non-ASCII character is outside its fragment
+            ok = is_ascii(q) and all(is_ascii(k) and is_ascii(v) for k, v in l)
+            if not ok:
+                self.ctx.unmodelled += 1
+                self.qsl.append(("(%s, %s, Unmodelled)" % (coq_bool(kb), coq_str(q)), {"parse_qsl": q, "keep_blank": kb}))
+            else:
+                self.qsl.append(("(%s, %s, (Ok %s))" % (coq_bool(kb), coq_str(q), coq_list(
+                    ["(%s, %s)" % (coq_str(k), coq_str(v)) for k, v in l], "(pystr * pystr)")), {"parse_qsl": q, "keep_blank": kb, "out": l}))
+            if not kb:
+                d = UP.parse_qs(q)
+                if ok:
+                    self.qs.append(("(%s, (Ok %s))" % (coq_str(q), coq_qd(d)), {"parse_qs": q, "out": d}))
+                else:
+                    self.qs.append(("(%s, Unmodelled)" % coq_str(q), {"parse_qs": q}))
 
     def flush(self):
         imp = ["Lib.Base", "Lib.PyStr", "Model.Uri"]
@@ -558,6 +563,7 @@ class UrlDiff:
 # ------------------------------------------------------------------ driving the real code
 class Op:
     """one provider (OIDC or OAuth2) with one reconfigurable client"""
+    current = None
 
     def __init__(self, oidc):
         import srv
@@ -566,14 +572,17 @@ class Op:
         self.context = self.server.context
         self.ep = self.server.get_endpoint("authorization")
         self.issued = None
-        orig = self.ep.create_authn_response
+        # what is handed to inputs() is what the endpoint decided to put on the form_post page
+        import idpyoidc.server.oauth2.authorization as A
+        if not getattr(A.inputs, "_c06_spy", False):
+            orig = A.inputs
 
-        def spy(request, sid):
-            res = orig(request, sid)
-            ra = res.get("response_args")
-            self.issued = list(ra.items()) if ra is not None else None
-            return res
-        self.ep.create_authn_response = spy
+            def spy(form_args):
+                if Op.current is not None:
+                    Op.current.issued = list(form_args.items())
+                return orig(form_args)
+            spy._c06_spy = True
+            A.inputs = spy
         self.etype = "oidc" if oidc else "oauth2"
 
     def configure(self, cfg, cid="client_1"):
@@ -597,6 +606,7 @@ class Op:
         """What a host application (example/flask_op/views.py) does with the endpoint. Returns an observation."""
         ep = self.ep
         self.issued = None
+        Op.current = self
         obs = {"stage": None, "redirect": None, "page": None, "direct": None, "return_uri": None, "issued": None,
                "parsed_redirect_uri": None}
         hi = {"headers": {}}
@@ -944,6 +954,9 @@ class Logout:
         ("plo-test-style", lambda b: [b, ""], {"base": "https://client.example.com/logout_cb", "qd": None}),
         ("plo-tuple", lambda b: [(b, None)], {"base": "https://client.example.com/logout_cb", "qd": None}),
         ("plo-tuple-query", lambda b: [(b, {"x": ["1"]})], {"base": "https://client.example.com/logout_cb", "qd": {"x": ["1"]}}),
+        # the shape dynamic registration stores (split_uri): [base, query dict] — not a list of (base, query) pairs
+        ("plo-registration-shape", lambda b: [b, {"x": ["1"], "y": ["2"]}],
+         {"base": "https://client.example.com/logout_cb", "qd": {"x": ["1"], "y": ["2"]}}),
     ]
 
     def __init__(self, ctx, op):
@@ -996,8 +1009,9 @@ class Logout:
         ctx.case_seen(rec, True)
         ctx.count("logout:" + rec["out"])
         # the matcher's decision at this endpoint, for the model (registered entries exactly as stored)
-        if not other_client and rec["out"] in ("redirect", "URIError", "RedirectURIError", "ValueError"):
-            stored = mk(r["base"])
+        stored = mk(r["base"])
+        if (not other_client and rec["out"] in ("redirect", "URIError", "RedirectURIError", "ValueError")
+                and all(isinstance(e, (str, tuple)) for e in stored)):
             regs_c = coq_list([("(RStr %s)" % coq_str(e)) if isinstance(e, str) else
                                "(RPair %s %s)" % (coq_str(e[0]), "None" if e[1] is None else "(Some %s)" % coq_qd(e[1]))
                                for e in stored], "reg")
@@ -1018,6 +1032,8 @@ class Logout:
             ctx.violation("logout-target-changed", "end_session redirect_location %r is not the logout verification page" % loc, rec)
         if not allowed:
             sig = "logout-client-id-override" if other_client else sig_of(reasons)
+            if name == "plo-registration-shape" and reasons == ["mismatch"]:
+                sig = "logout-registration-shape"
             ctx.violation(sig, "end_session accepts post_logout_redirect_uri %r (%s) and will send the user agent to %r"
                           % (uri, ",".join(reasons), final), rec)
             return
